@@ -4,9 +4,11 @@ and factories for the algorithms under test.  Everything is derived from the
 run's Decisions.
 """
 import contextlib
+import enum
 import io
 import math
 import os
+import sys
 
 from . import seams, kernel
 
@@ -89,12 +91,18 @@ class World:
         self.thr = [(0.7, 0.5, 0.9)[D.dec('cfg', ('thr', k), 3)] for k in range(self.ncons)]
         # what the user's objective returns: a list of Python floats, or a numpy array (vectorised FEM post-processing)
         self.ret_numpy = D.weighted('cfg', 'retnumpy', (4, 1)) == 1
+        # ... or, for a list-returning objective, the very same list object whenever a vector is visited again (results of an
+        # expensive solver memoised by design vector): what the library does to a design's costs must not reach it
+        self.ret_memo = (not self.ret_numpy) and D.weighted('cfg', 'retmemo', (4, 1)) == 1
+        self.memo = {}
         self.calls = []
         self.attempts = {}
         self.ncalls_ok = 0
         self.with_predict = with_predict
         self.predict_log = []
         self.name = name
+        # the session may have defined and used an unrelated problem before this one: nothing of it may show here
+        self.decoy = _decoy_session(self) if D.weighted('cfg', 'decoy', (3, 1)) == 1 else None
         self.problem = _make_problem(self)
 
     # ---- the user's functions (pure, recomputable by the oracle)
@@ -201,6 +209,9 @@ def _make_problem(world):
             if w.ret_numpy:
                 import numpy as np
                 return np.array(r)
+            if w.ret_memo:
+                # (the objective is defined on the unit box: a run after the box was narrowed in place is another function)
+                return w.memo.setdefault((vec, tuple(tuple(q['bounds']) for q in w.params)), r)
             return r
 
         def evaluate_inequality_constraints(self, x):
@@ -220,6 +231,51 @@ def _make_problem(world):
     with quiet():
         p = cls()
     return p
+
+
+def _decoy_session(world):
+    """an unrelated study defined and used earlier in the same interpreter session: one more parameter, one more objective,
+    the opposite criteria, a constraint, one transient failure (so it owns a failed design)"""
+    from artap.problem import Problem
+    from artap.individual import Individual
+    from artap.algorithm import Algorithm
+
+    class Decoy(Problem):
+        def set(self, **kwargs):
+            self.name = 'decoy'
+            self.parameters = [{'name': 'p%d' % i, 'bounds': [-2.0, 3.0]} for i in range(world.n + 1)]
+            self.costs = [{'name': 'g%d' % j, 'criteria': 'minimize' if world.signs[j % world.m] < 0 else 'maximize'}
+                          for j in range(world.m + 1)]
+            self.ncalls = 0
+
+        def evaluate(self, individual):
+            self.ncalls += 1
+            if self.ncalls == 2:
+                raise RuntimeError('decoy: transient failure')
+            return [float(sum(individual.vector)) + 100.0 * (j + 1) for j in range(len(self.costs))]
+
+        def evaluate_inequality_constraints(self, x):
+            return [x[0] - 0.75]
+
+    class DecoyAlgorithm(Algorithm):
+        def run(self):
+            pass
+
+    with quiet():
+        p = Decoy()
+        a = DecoyAlgorithm(p, name='decoy')
+        a.options['max_processes'] = 1
+        a.evaluate([Individual([0.5] * (world.n + 1)), Individual([1.0] * (world.n + 1))])
+        if world.D.dec('cfg', 'decoyrun', 3) == 1:
+            # ... and optimised with one of the population algorithms (whatever those keep at class or module level)
+            import types
+            try:
+                make_algorithm(world.D.pick('cfg', 'decoyalgo', ALGOS), types.SimpleNamespace(problem=p), 4, 2).run()
+            except (kernel.Deadlock, kernel.StepCap, kernel.Livelock, kernel.SimAbort):
+                raise
+            except Exception:
+                pass        # the decoy is environment, not under judgement (observation O5 can end such a run)
+    return p, a
 
 
 def w_ncons(world):
@@ -268,6 +324,7 @@ def begin_run(D, policy=None, stall_p=None, timed=None, p_ext=0.0, keep_log=Fals
                      step_cap=step_cap, line_p=line_p,
                      trace_prefix=os.path.join(os.path.realpath(seams.repo_path()), 'artap') + os.sep)
     _reset_loggers()
+    _restore_process_globals()
     seams.set_sim(sim)
     Individual.counter = 0
     _reset_subclass_counters(Individual)
@@ -289,6 +346,68 @@ def _reset_subclass_counters(cls):
             except (AttributeError, TypeError):
                 pass
         _reset_subclass_counters(sub)
+
+
+_CORE = ('problem', 'individual', 'algorithm', 'algorithm_genetic', 'algorithm_swarm', 'algorithm_sweep', 'algorithm_scipy',
+         'algorithm_nlopt', 'operators', 'job', 'datastore', 'results', 'surrogate', 'surrogate_scikit', 'archive', 'utils',
+         'quality_indicator', 'doe', 'config', 'executor')
+_snap = {}          # id(container) -> (container, import-time content, where)
+_scanned = set()
+
+
+def _restore_process_globals():
+    """one run = one interpreter session.  Containers that live as long as the process - class-level lists/dicts/sets,
+    mutable default arguments, module-level containers of the library - are put back to their import-time content, so that
+    what a run sees never depends on the runs that preceded it in this worker (digests would differ, violations would not
+    replay).  State of that kind that matters to a property is produced inside the run (second problems, decoy sessions)."""
+    import copy
+    import importlib
+    import inspect
+    if not _scanned:
+        for m in _CORE:
+            try:
+                importlib.import_module('artap.' + m)
+            except Exception:
+                pass
+    for name, mod in list(sys.modules.items()):
+        if name in _scanned or mod is None or not name.startswith('artap.') or '.tests' in name:
+            continue
+        _scanned.add(name)
+
+        def note(c, where):
+            if isinstance(c, (list, dict, set)) and len(c) <= 1000 and id(c) not in _snap:
+                try:
+                    _snap[id(c)] = (c, copy.deepcopy(c), where)
+                except Exception:
+                    pass
+
+        def note_fn(f, where):
+            f = f.__func__ if isinstance(f, (staticmethod, classmethod)) else f
+            if inspect.isfunction(f):
+                for dflt in (f.__defaults__ or ()) + tuple((f.__kwdefaults__ or {}).values()):
+                    note(dflt, where)
+
+        for k, v in list(vars(mod).items()):
+            if k.startswith('__'):
+                continue
+            if inspect.isclass(v) and v.__module__ == name:
+                if issubclass(v, enum.Enum):
+                    continue
+                for a, b in list(vars(v).items()):
+                    if not a.startswith('__'):
+                        note(b, '%s.%s.%s' % (name, v.__name__, a))
+                    note_fn(b, '%s.%s.%s()' % (name, v.__name__, a))
+            elif inspect.isfunction(v) and v.__module__ == name:
+                note_fn(v, '%s.%s()' % (name, k))
+            else:
+                note(v, '%s.%s' % (name, k))
+    for c, orig, where in _snap.values():
+        if c != orig:
+            if isinstance(c, list):
+                c[:] = copy.deepcopy(orig)
+            else:
+                c.clear()
+                c.update(copy.deepcopy(orig))
 
 
 _runs = [0]
@@ -340,6 +459,16 @@ def attach_store(world, path, **kw):
     with quiet():
         world.problem.data_store = SqliteDataStore(world.problem, database_name=path, **kw)
     return world.problem.data_store
+
+
+def reopen_session(world, path, mode='write'):
+    """a second session on the same file: a new Problem instance of the same user class, with a store opened in `mode`
+    on the existing file (which loads the stored designs into problem.individuals); returns the loaded designs"""
+    old = world.problem
+    old.data_store = None
+    world.problem = _make_problem(world)
+    attach_store(world, path, mode=mode)
+    return list(world.problem.individuals)
 
 
 def open_view(path):
